@@ -142,6 +142,9 @@ class C02(SolverSuite):
         else:
             L = rng.randint(400, 2500)
         spec = G.gen_actor(rng, max_iters=L, refine=(rng.random() < 0.1), small_iters_prob=0.05)
+        if spec["objective"]["N"] >= 2 and rng.random() < 0.2:
+            # coarse or fine evolvents: with a coarse one the search soon works inside single cells (many trials at one y)
+            spec["params"]["evolventDensity"] = rng.choice([2, 3, 4, 5, 6, 8, 12])
         lim = spec["params"]["itersLimit"]
         if rng.random() < 0.6:
             spec["params"]["itersLimit"] = lim = L
@@ -214,6 +217,15 @@ class C03(SolverSuite):
         if rng.random() < 0.1:
             ops.append({"a": "S0", "op": "iterate", "k": rng.randint(1, 5)})
             ops.append({"a": "S0", "op": "solve"})
+        if rng.random() < 0.12:
+            # the user changes the budget / accuracy on the parameters object and resumes
+            for _ in range(rng.randint(1, 2)):
+                if rng.random() < 0.7:
+                    lim_now = spec["params"]["itersLimit"] + sum(o["value"] - spec["params"]["itersLimit"] for o in ops if o.get("field") == "itersLimit")
+                    ops.append({"a": "S0", "op": "setp", "field": "itersLimit", "value": int(max(1, lim_now + rng.choice([-3, 1, 2, 5, 20])))})
+                else:
+                    ops.append({"a": "S0", "op": "setp", "field": "eps", "value": float("%.3g" % (spec["params"]["eps"] * rng.choice([0.5, 0.1, 2.0])))})
+                ops.append({"a": "S0", "op": "solve"})
         ops = G.sprinkle_evq(rng, ops, "S0", spec, prob=0.1)
         plan = G.base_plan(self.prop, run_seed, {"S0": spec}, ops, clock=G.gen_clock(rng))
         plan["edge"] = edge
@@ -298,6 +310,12 @@ class C04(SolverSuite):
         spec = G.gen_actor(rng, max_iters=L, families=fams, refine=(rng.random() < 0.2), shipped_prob=0.08)
         if rng.random() < 0.5:
             spec["params"]["itersLimit"] = L
+        if L <= 40 and rng.random() < 0.1:
+            # shipped console / painting listeners observe (and must not touch) the optimum
+            from .suites_multi import gen_listeners
+            spec["listeners"] = [ls for ls in gen_listeners(rng, spec["objective"]["N"], L)
+                                 if ls.get("mode") not in ("interpolation", "approximation") and ls.get("calc") != "interpolation"]
+            spec["params"]["itersLimit"] = min(spec["params"]["itersLimit"], L)
         pre = rng.choice([0, rng.randint(0, L), rng.randint(0, L)])
         ops = G.gen_single_ops(rng, "S0", pre, with_solve=rng.random() < 0.8, results_prob=0.4,
                                after_solve_iters=rng.choice([0, rng.randint(1, 8)]), refine_ops=rng.random() < 0.2)
@@ -307,6 +325,14 @@ class C04(SolverSuite):
         plan = G.base_plan(self.prop, run_seed, actors, ops, clock=G.gen_clock(rng))
         if "S1" in actors and rng.random() < 0.5:
             plan["nested"] = gen_nested(rng, plan, max_entries=2)
+        if spec["params"].get("refineSolution") and not spec.get("listeners") and rng.random() < 0.3:
+            # fault configuration with refinement on: the failing evaluation may be a global trial, any Nelder-Mead
+            # evaluation, or the final re-evaluation of the refined point (contained by Solve; the driver goes on)
+            plan["faults"] = [{"a": "S0", "at_eval": rng.randint(2, max(3, 2 * min(spec["params"]["itersLimit"], L) + 12)),
+                               "exc": rng.choice(["ValueError", "KeyboardInterrupt", "SimFault"]), "when": rng.choice(["before", "after"]),
+                               "persistent": False, "noargs": rng.random() < 0.2}]
+            plan["continue_after_fault"] = True
+            return plan
         return maybe_fault(rng, plan)
 
     def nontrivial_key(self, plan, w):
